@@ -59,7 +59,7 @@ for (f, i, col, k) in sites:
     open(f, 'w').write('\n'.join(lines2))
     desc = '%s:%d  [%s] -> [%s]' % (os.path.relpath(f, REPO), i + 1, lines[i].strip()[:90], new_line.strip()[:90])
     try:
-        b = sh('cargo build --offline 2>&1 | tail -1', cwd=REPO)
+        b = sh('cargo build --offline --features rand,serde,quickcheck,arbitrary 2>&1 | tail -1', cwd=REPO)
         if 'Finished' not in b.stdout:
             continue
         t = sh("cargo test --workspace --no-fail-fast --offline 2>&1 | grep -E '^test result' | awk '{f+=$6} END {print f+0}'", cwd=REPO, timeout=1800)
